@@ -28,6 +28,9 @@ with ThreadPoolExecutor(J) as ex:
         ok = out.get('patch_applies') and str(out.get('tests', '')).startswith('454 passed') and out.get('demo_with_change') == 1 and out.get('demo_without_change') == 0
         res = '; '.join('%s %s%s' % (c, {0: 'MISSED', 1: 'caught', 2: 'inconclusive'}.get(r['exit'], r['exit']), (': ' + ' / '.join(r['violation_keys'][:3])) if r['violation_keys'] else '')
                         for c, r in out.get('checks', {}).items())
+        m = json.load(open(os.path.join(ROOT, 'seeded', sid, 'meta.json')))
+        if m.get('assessment') and 'caught' not in res:
+            res += ' - not claimed: ' + m['assessment'][:160] + ' ... (meta.json)'
         rows.append((sid, 'confirmed' if ok else 'NOT CONFIRMED (%s)' % json.dumps({k: out.get(k) for k in ('patch_applies', 'tests', 'demo_with_change', 'demo_without_change')}), res))
         print(sid, rows[-1][1], '|', res, flush=True)
 head = subprocess.run(['git', '-C', '/repo', 'log', '-1', '--format=%h'], capture_output=True, text=True).stdout.strip()
@@ -35,5 +38,5 @@ with open(os.path.join(ROOT, 'seeded', 'STATUS.md'), 'w') as f:
     f.write('# Seeded changes against the quick tier (tools/seedall.py), /repo at %s\n\n| id | change confirmed | checks |\n|---|---|---|\n' % head)
     for r in rows:
         f.write('| %s | %s | %s |\n' % tuple(str(x).replace('|', '\\|').replace('\n', ' ') for x in r))
-bad = [r for r in rows if 'caught' not in r[2]]
+bad = [r for r in rows if 'caught' not in r[2] and 'not claimed' not in r[2]]
 print('%d seeds, %d not caught by any listed check' % (len(rows), len(bad)))
